@@ -11,7 +11,8 @@ EXPLANATION = ("R06.1 Liquidate success paths establish ratio <= config.maintena
                "the TWAP figures exactly when |spot pnl| > |twap pnl|; R06.4 over-spread = |((market - oracle) * decimals) / oracle| >= "
                "decimals/10; R06.5 full liquidation: liquidator gets (output*liquidation_fee/decimals)/2, position removed on every "
                "success path; R06.6 partial liquidation swaps size*partial_ratio/decimals of the position and pays insurance fund and "
-               "liquidator the same (output*fee/decimals)/2. R06.8 the valuation primitive per calc option (Twap -> OutputTwap, SpotPrice -> OutputAmount, Oracle -> price * |size| / decimals; pnl signed by direction).")
+               "liquidator the same (output*fee/decimals)/2. R06.8 the valuation primitive per calc option (Twap -> OutputTwap, SpotPrice -> OutputAmount, Oracle -> price * |size| / decimals; pnl signed by direction)."
+               " R06.9 the liquidator slot is written unconditionally with info.sender by the Liquidate handler.")
 NOT_DECIDED = "numeric outcome; that a partial liquidation cannot overshoot (sign table is C02's); recipients are C03's."
 
 VAMM = "margined_vamm"
